@@ -87,9 +87,9 @@ Section Grad1.
   Lemma dr_grad_1 : is_grad3 (drucker_1 c) s0 s1 s2 [dr_N0 c s0 s1 s2; dr_N1 c s0 s1 s2; dr_N2 c s0 s1 s2].
   Proof.
     unfold is_grad3; cbn [nth]. split; [|split].
-    - grad_component HS (S6_1 c s0 s1 s2). unfold dr_N0, drucker_1. time (close_eq HS (S6_1 c s0 s1 s2)).
-    - grad_component HS (S6_1 c s0 s1 s2). unfold dr_N1, drucker_1. time (close_eq HS (S6_1 c s0 s1 s2)).
-    - grad_component HS (S6_1 c s0 s1 s2). unfold dr_N2, drucker_1. time (close_eq HS (S6_1 c s0 s1 s2)).
+    - grad_component HS (S6_1 c s0 s1 s2). unfold dr_N0, drucker_1. (close_eq HS (S6_1 c s0 s1 s2)).
+    - grad_component HS (S6_1 c s0 s1 s2). unfold dr_N1, drucker_1. (close_eq HS (S6_1 c s0 s1 s2)).
+    - grad_component HS (S6_1 c s0 s1 s2). unfold dr_N2, drucker_1. (close_eq HS (S6_1 c s0 s1 s2)).
   Qed.
 End Grad1.
 
@@ -108,3 +108,26 @@ Section Normal1.
     repeat (apply f_equal2; [ close_rat HS (S6_1 c s0 s1 s2) | ]). reflexivity.
   Qed.
 End Normal1.
+
+(* ---- 2D: the three variants return the same value above the threshold, zeros below *)
+Section Same2.
+  Variables s0 s1 s2 s3 c seps : R.
+  Lemma dr_same_2 : seps * seps < J2_2 s0 s1 s2 s3 ->
+    (exists l, dr_nrm_2 s0 s1 s2 s3 c seps = Some (drucker_2 c s0 s1 s2 s3 :: l)) /\
+    (exists l, dr_snd_2 s0 s1 s2 s3 c seps = Some (drucker_2 c s0 s1 s2 s3 :: l)).
+  Proof.
+    intro H. unfold drucker_2, drucker_of. split; [unfold dr_nrm_2 | unfold dr_snd_2];
+      same_value H (J2_2 s0 s1 s2 s3) seps
+        (J2_2 s0 s1 s2 s3 * J2_2 s0 s1 s2 s3 * J2_2 s0 s1 s2 s3 - c * (J3_2 s0 s1 s2 s3 * J3_2 s0 s1 s2 s3)).
+  Qed.
+End Same2.
+
+(* ---- von Mises: sigmaeq = sqrt (3 J2) *)
+Lemma mises_3_spec s0 s1 s2 s3 s4 s5 : mises_3 s0 s1 s2 s3 s4 s5 = mises_of (J2_3 s0 s1 s2 s3 s4 s5).
+Proof.
+  unfold mises_3, mises_of; cbv zeta.
+  match goal with |- context [sqrt ?a] =>
+    tryif constr_eq a (3 * J2_3 s0 s1 s2 s3 s4 s5) then idtac
+    else replace a with (3 * J2_3 s0 s1 s2 s3 s4 s5) by (unfold_spec; poly) end.
+  ring.
+Qed.
